@@ -120,6 +120,8 @@ var _ imap.UID // used by //@ func headers
 //@ func (dec *Decoder) ExpectAString(ptr *string) (result bool)
 //@   modifies ptr
 //@   ensures !result ==> dec.err != nil
+//@   props C04:callsite
+//@   callsite Decoder.ExpectAtom(d *Decoder, p *string) requires d.err == nil || old(dec.err) != nil
 
 //@ func (dec *Decoder) ExpectString(ptr *string) (result bool)
 //@   modifies ptr
